@@ -24,6 +24,6 @@ rows = [r.replace('\n', ' ').replace('\r', ' ') for r in rows]
 table = '| seed | change | needs | own check (quick tier) | also caught by |\n|---|---|---|---|---|\n' + '\n'.join(rows)
 p = os.path.join(V, 'DESIGN.md')
 s = open(p).read()
-s = re.sub(r'<!-- SEEDTABLE -->.*?<!-- /SEEDTABLE -->', '<!-- SEEDTABLE -->\n' + table + '\n<!-- /SEEDTABLE -->', s, flags=re.S)
+s = re.sub(r'<!-- SEEDTABLE -->.*?<!-- /SEEDTABLE -->', lambda _m: '<!-- SEEDTABLE -->\n' + table + '\n<!-- /SEEDTABLE -->', s, flags=re.S)
 open(p, 'w').write(s)
 print(len(rows), 'seeds')
